@@ -13,6 +13,8 @@ CRASH_KEYS = {"c10_sum": "sum_of_refs"}
 # witness programs: one per dependency set, so that curve-side searches do not compile the circuits crate
 CRATES = {"c19_regex": ("witness_circuits", "verif_witness_circuits"),
           "c06_foreign": ("witness_circuits", "verif_witness_circuits"),
+          "c05_mod_exp": ("witness_circuits", "verif_witness_circuits"),
+          "c05_field_mul": ("witness_circuits", "verif_witness_circuits"),
           "c07_poseidon_varlen": ("witness_circuits", "verif_witness_circuits"),
           "c16_zkir": ("witness_zkir", "verif_witness_zkir"),
           "c12_chunks": ("witness_proofs", "verif_witness_proofs"),
